@@ -23,6 +23,8 @@ var MoreDirectiveAtoms = []string{
 	"@comp", "@componen", "@s", "@slo", "@d", "@dum", "@b", "@brea", "@ea", "@eac", "@elsei", "@el",
 	// directive names in another case are plain text
 	"@elseIf", "@breakif", "@continueif", "@ElseIf", "@IF", "@End", "@breakIF", "@Each", "@elseIF",
+	// a block name glued to @end is text after @end
+	"@endif", "@endeach", "@endfor", "@endslot", "@endinsert", "@endcomponent", "@ends", "@endi",
 }
 
 // LexemeAtoms is the lexeme alphabet for lexing/parsing (C08) and positions (C19)
